@@ -40,7 +40,7 @@ Extraction "skv_model.ml"
   VlogInst.vlogi_step VlogInst.vlogz_step VlogInst.vlogi_resolve VlogInst.vlogz_resolve VlogInst.vlogi_append VlogInst.vlogi_read VlogInst.vlogi_entry
   VlogInst.vlogi_vs_append VlogInst.vlogi_vs_get VlogInst.vlogi_vs_get_rule VlogInst.vlogi_ds_step VlogInst.vlogi_run VlogInst.vlogz_run
   Vlog.cut_file Vlog.update_file VlogParams.VLOG_CACHE_HIT_CHECKED
-  Arena.ar_bound Arena.ar_mem_add Arena.ar_empty_n ArenaParams.ARENA_BOUND_HAS_UNUSED_TOWER ArenaParams.ARENA_MAX_HEIGHT
+  Arena.ar_bound Arena.ar_mem_add Arena.ar_empty_n Arena.ar_max_unused ArenaParams.ARENA_BOUND_HAS_UNUSED_TOWER ArenaParams.ARENA_MAX_HEIGHT
   VlogOpen.vopen_file VlogOpen.vwriter_open VlogParams.VLOG_OPEN_EMPTIES_TORN_HEADER
   VlogParams.VP_SIZE VlogParams.VL_BIT_VALUE_POINTER VlogParams.VL_VERSION VlogParams.VP_VERSION VlogParams.VLOG_FORMAT_VERSION
   Levels.Lv.get Levels.Lv.get_hit Levels.Lv.view_of_all Levels.Lv.current Levels.Lv.current_sel Levels.Lv.rules_okb Levels.Lv.srules_okb Levels.Lv.step Levels.Lv.st0
